@@ -4,18 +4,37 @@
 pub mod queue_core;
 #[path = "queue_family.rs"]
 pub mod queue_family;
+#[path = "queue_rate.rs"]
+pub mod queue_rate;
 #[path = "queue_sched.rs"]
 pub mod queue_sched;
 
 use crate::common::Ctx;
 
 pub fn run(ctx: &Ctx) {
-    queue_family::run_family(
+    // "rate-limited": between the two phases of the family run (no tracing subscriber yet), suite "-r"
+    let mut r = crate::common::Out::new(ctx, "-r");
+    let mut between = |rng: &mut crate::common::Rng| {
+        if let Some(p) = &ctx.replay {
+            for line in std::fs::read_to_string(p).unwrap().lines().filter(|l| l.starts_with("(7 ")) {
+                queue_rate::replay_rate(&mut r, line);
+            }
+        } else {
+            queue_rate::run_rate(&mut r, rng, ctx.tier_thorough);
+        }
+    };
+    queue_family::run_family_with(
         ctx,
         queue_family::Focus::Delivery,
         "scheduled: random plans (1-4 producer threads, typed/boxed handles, capacities 1-8/64 and >32, stream errors, flush requests, \
          shutdown or forget) under seeded random schedules with varying writer priority, both clock regimes, with and without a tracing \
          subscriber; non-trivial = at least 3 appends, writer and producers interleaved, and at least one of: overflow, flush request, \
          stream error, two producers; distinct by hash of the recorded label sequence",
+        &mut between,
+    );
+    r.finish(
+        "rate limiter: every operation sequence up to length 5 (quick) / 6 (thorough) over {clock +0.5 s, clock +1 s, failing entry, \
+         good entry}, random monotone clocks with steps around the second boundary and idle periods up to 10^9 s, idle-then-burst, \
+         the end of the u64 range; non-trivial = at least two failing entries",
     );
 }
